@@ -512,28 +512,28 @@ func Supervise(spec *PropertySpec, tier string, verifSeed uint64, budgetOverride
 		samples = []interface{}{"(no sample recorded)"}
 	}
 	cov := map[string]interface{}{
-		"evaluations":         agg.evals,
-		"distinct_nontrivial": agg.distinctTotal(),
-		"rule":                rule,
-		"samples":             samples,
-		"runs":                agg.runs,
-		"runs_per_hour":       int64(float64(agg.runs) / wall * 3600),
+		"evaluations":          agg.evals,
+		"distinct_nontrivial":  agg.distinctTotal(),
+		"rule":                 rule,
+		"samples":              samples,
+		"runs":                 agg.runs,
+		"runs_per_hour":        int64(float64(agg.runs) / wall * 3600),
 		"evaluations_per_hour": int64(float64(agg.evals) / wall * 3600),
-		"verif_seed":          verifSeed,
-		"seeds":               fmt.Sprintf("run i uses seed Mix(VERIF_SEED=%d, property, i) for i in [0,%d)", verifSeed, agg.runs),
-		"sim_steps":           agg.steps,
-		"sim_time_note":       "simulated time = VM instruction dispatches / scheduler events / I/O operations, no wall clock is read by the code under test",
-		"fault_counts":        agg.faults,
-		"context_probes":      agg.probes,
-		"zero_probes":         zeroProbes,
-		"race_runs":           agg.raceRuns,
-		"components":          map[string]interface{}{"real": realC, "stub": stubC},
-		"known_findings_seen": knownSeen,
-		"disabled_features":   disabled,
-		"discarded_runs":      agg.discarded,
-		"sub_mode_runs":       subsDone,
-		"workers":             workers,
-		"worker_cpu_s":        agg.workerWall,
+		"verif_seed":           verifSeed,
+		"seeds":                fmt.Sprintf("run i uses seed Mix(VERIF_SEED=%d, property, i) for i in [0,%d)", verifSeed, agg.runs),
+		"sim_steps":            agg.steps,
+		"sim_time_note":        "simulated time = VM instruction dispatches / scheduler events / I/O operations, no wall clock is read by the code under test",
+		"fault_counts":         agg.faults,
+		"context_probes":       agg.probes,
+		"zero_probes":          zeroProbes,
+		"race_runs":            agg.raceRuns,
+		"components":           map[string]interface{}{"real": realC, "stub": stubC},
+		"known_findings_seen":  knownSeen,
+		"disabled_features":    disabled,
+		"discarded_runs":       agg.discarded,
+		"sub_mode_runs":        subsDone,
+		"workers":              workers,
+		"worker_cpu_s":         agg.workerWall,
 	}
 	ev := map[string]interface{}{
 		"property_id": prop,
